@@ -165,6 +165,11 @@ impl Timestamp {
     If any field of `parts` would overflow its maximum value, such as `days: 32`, then it will wrap into the next unit.
     */
     pub fn from_parts(parts: Parts) -> Option<Self> {
+        // Months and days are one-based
+        if parts.months == 0 || parts.days == 0 {
+            return None;
+        }
+
         let is_leap;
         let start_of_year;
         let year = (parts.years as i64) - 1900;
@@ -469,25 +474,39 @@ impl fmt::Display for ParseTimestampError {
 impl std::error::Error for ParseTimestampError {}
 
 fn parse_rfc3339(fmt: &str) -> Result<Timestamp, ParseTimestampError> {
-    if fmt.len() > 30 || fmt.len() < 19 {
+    // Work on bytes: a valid timestamp is ASCII, and slicing a `str`
+    // would panic on input with multi-byte characters
+    let fmt = fmt.as_bytes();
+
+    if fmt.len() > 30 || fmt.len() < 20 {
         // Invalid length
         return Err(ParseTimestampError {});
     }
 
-    if *fmt.as_bytes().last().unwrap() != b'Z' {
+    if *fmt.last().unwrap() != b'Z' {
         // Non-UTC
         return Err(ParseTimestampError {});
     }
 
-    let years = u16::from_str_radix(&fmt[0..4], 10).map_err(|_| ParseTimestampError {})?;
-    let months = u8::from_str_radix(&fmt[5..7], 10).map_err(|_| ParseTimestampError {})?;
-    let days = u8::from_str_radix(&fmt[8..10], 10).map_err(|_| ParseTimestampError {})?;
-    let hours = u8::from_str_radix(&fmt[11..13], 10).map_err(|_| ParseTimestampError {})?;
-    let minutes = u8::from_str_radix(&fmt[14..16], 10).map_err(|_| ParseTimestampError {})?;
-    let seconds = u8::from_str_radix(&fmt[17..19], 10).map_err(|_| ParseTimestampError {})?;
-    let nanos = if fmt.len() > 19 {
+    if fmt[4] != b'-' || fmt[7] != b'-' || fmt[10] != b'T' || fmt[13] != b':' || fmt[16] != b':' {
+        // Invalid separators
+        return Err(ParseTimestampError {});
+    }
+
+    let years = parse_digits(&fmt[0..4])? as u16;
+    let months = parse_digits(&fmt[5..7])? as u8;
+    let days = parse_digits(&fmt[8..10])? as u8;
+    let hours = parse_digits(&fmt[11..13])? as u8;
+    let minutes = parse_digits(&fmt[14..16])? as u8;
+    let seconds = parse_digits(&fmt[17..19])? as u8;
+    let nanos = if fmt.len() > 20 {
+        // A `.` followed by between 1 and 9 digits
+        if fmt[19] != b'.' || fmt.len() < 22 {
+            return Err(ParseTimestampError {});
+        }
+
         let subsecond = &fmt[20..fmt.len() - 1];
-        u32::from_str_radix(subsecond, 10).unwrap() * 10u32.pow(9 - subsecond.len() as u32)
+        parse_digits(subsecond)? * 10u32.pow(9 - subsecond.len() as u32)
     } else {
         0
     };
@@ -502,6 +521,21 @@ fn parse_rfc3339(fmt: &str) -> Result<Timestamp, ParseTimestampError> {
         nanos,
     })
     .ok_or_else(|| ParseTimestampError {})
+}
+
+// Parse up to 9 ASCII digits; signs, whitespace, and non-ASCII digits are not accepted
+fn parse_digits(digits: &[u8]) -> Result<u32, ParseTimestampError> {
+    let mut value = 0u32;
+
+    for b in digits {
+        if !b.is_ascii_digit() {
+            return Err(ParseTimestampError {});
+        }
+
+        value = value * 10 + u32::from(b - b'0');
+    }
+
+    Ok(value)
 }
 
 fn fmt_rfc3339(ts: Timestamp, f: &mut fmt::Formatter) -> fmt::Result {
